@@ -182,14 +182,15 @@ Fixpoint gen_loop (a : list Z) (js : list nat) : list event * list Z * bool :=
         (EvSend j (MShare (SVal p)) :: ev, p :: ys, ok)
   end.
 
-(* generateShares *)
+(* generateShares: a seed that is too short leaves the state unchanged (the polynomial is
+   generated into a local first); the (probability 1/r) failure on a zero own share happens
+   inside the loop, after s.a, s.y, s.vA were written and the shares below myIndex sent *)
 Definition gen_shares (sd : seed) (v : vinst) : vinst * result * list event :=
-  let v1 := set_y v (Some (repeat 0 n)) in
   match sd with
-  | SeedShort => (v1, RInvalidInput, [])
+  | SeedShort => (v, RInvalidInput, [])
   | SeedOk a0 =>
       let a := fixpoly t a0 in
-      let v2 := set_vA (set_a v1 (Some a)) (VAFull a) in
+      let v2 := set_vA (set_y (set_a v (Some a)) (Some (repeat 0 n))) (VAFull a) in
       let '(ev, ys, ok) := gen_loop a (seq 0 n) in
       let yfull := ys ++ repeat 0 (n - length ys) in
       if ok then
@@ -199,11 +200,15 @@ Definition gen_shares (sd : seed) (v : vinst) : vinst * result * list event :=
         (set_x (set_y v2 (Some yfull)) 0, RInvalidInput, ev)
   end.
 
-(* Start *)
+(* Start: the instance is marked as running only if the shares could be generated *)
 Definition vss_start (run : bool) (v : vinst) (sd : seed) : bool * vinst * result * list event :=
   if run then (run, v, RStateErr, [])
   else if Nat.eqb d my then
-    let '(v', res, ev) := gen_shares sd v in (true, v', res, ev)
+    let '(v', res, ev) := gen_shares sd v in
+    match res with
+    | ROk => (true, v', res, ev)
+    | _ => (run, v', res, ev)
+    end
   else (true, v, ROk, []).
 
 (* receiveShare; None = panic *)
